@@ -935,6 +935,9 @@ func (vc *VC) setVal(v ssa.Value, term string) Term {
 }
 
 func (vc *VC) execInstr(b *ssa.BasicBlock, in ssa.Instruction, h *Heap, reach string) string {
+	if !vc.inPanicExit {
+		vc.curHeap = h
+	}
 	switch x := in.(type) {
 	case *ssa.DebugRef:
 		return reach
